@@ -62,6 +62,15 @@ func (s style) label() string {
 	return fmt.Sprintf("sh%d-ws%d-esc%d-unk%d", s.Shuffle, s.WS, s.Esc, s.Unknown)
 }
 
+// styleClasses turns a style label into one histogram label per dimension.
+func styleClasses(label string) []string {
+	parts := strings.Split(label, "-")
+	if len(parts) != 4 {
+		return []string{"style:" + label}
+	}
+	return []string{"style-shuffle:" + parts[0][2:], "style-ws:" + parts[1][2:], "style-esc:" + parts[2][3:], "style-unknown:" + parts[3][3:]}
+}
+
 func genStyle(t *rapid.T, hostile bool) style {
 	st := style{}
 	st.Shuffle = rapid.SampledFrom([]int{0, 0, 1, 2, 2}).Draw(t, "st_shuffle")
@@ -356,8 +365,15 @@ type bgen struct {
 	invalid bool // a deliberately malformed element was produced
 }
 
+// chance is true with a probability of roughly 0.5/n … 1/n. rapid's integers are
+// biased to 0, 1 and the maximum, so an interior value is tested (and shrinking
+// moves towards "false").
 func (g *bgen) chance(n int, label string) bool {
-	return rapid.IntRange(0, n-1).Draw(g.t, label) == 0
+	v := rapid.IntRange(0, n-1).Draw(g.t, label)
+	if n >= 4 {
+		return v == n-2
+	}
+	return v == n-1
 }
 
 func (g *bgen) unknown(depth int) jkv {
@@ -750,6 +766,12 @@ func genBody(t *rapid.T, fam string, hostile bool) (string, BodyInfo) {
 	info.BodyMT = bodyMT
 	info.Valid = !g.invalid && bodyMT != "contradict"
 	if fam == "schema1-signed" {
+		if g.st.Lead != "" {
+			// formatLength counts from the first byte served; the client's decoder sees the
+			// document without leading white space and rejects it. A rejection is not a
+			// violation, so only the non-vacuity demand is dropped for this shape.
+			info.Valid = false
+		}
 		if rapid.IntRange(0, 3).Draw(t, "sign_kind") == 0 {
 			info.Sign = "libtrust" // raw is the payload; the envelope is produced by libtrust inside the check
 			// libtrust takes leading whitespace as part of the payload but requires '{' '\n' for indent detection only
